@@ -133,6 +133,13 @@ def unk(tag, ty=ANY):
     return T("unk", (tag,), ty)
 
 
+def sized(name, n):
+    """An arbitrary byte string of exactly n bytes (a symbolic input whose length is fixed by the region under analysis)."""
+    if n == 0:
+        return b""
+    return T("sized", (name, n), BYTES)
+
+
 def app(name, args, kwargs=(), ty=ANY):
     return T("app", (name, tuple(freeze(a) if isinstance(a, (list, dict)) else a for a in args), tuple(kwargs)), ty)
 
@@ -244,6 +251,8 @@ def blen(x):
         return len(x)
     if isinstance(x, T):
         if x.op == "i2b":
+            return x.args[1]
+        if x.op == "sized":
             return x.args[1]
         if x.op == "hash":
             return HASHLEN.get(x.args[0])
